@@ -558,7 +558,7 @@ def _can_fail(g):
     return False
 
 
-def call_sites(prog, only=None, any_callee=False):
+def call_sites(prog, only=None, any_callee=False, extra=None):
     """(function, call, callee key, result ignored) for every call of a repository function that can fail, and of every
     function-pointer member (keyed `->name`): the result is ignored when the call is a statement of its own or cast to void"""
     from .facts import callee_name as _cn
@@ -583,13 +583,19 @@ def call_sites(prog, only=None, any_callee=False):
                 c = strip(e["e"], all_casts=True)
                 if c.get("k") == "call" and "sid" in c:
                     voided.add(c["sid"])
+        # a call that is itself the operand a branch decides on (`if (f(x))`, `a && f(x)`) is used
+        for blk in f.blocks.values():
+            if blk.term and isinstance(blk.term.get("cond"), dict):
+                for n in walk(blk.term["cond"]):
+                    if "sid" in n:
+                        nested.add(n["sid"])
         for e in els:
             if e.get("k") != "call" or f.T(e.get("t")).get("k") == "void":
                 continue
             nm = None
             if e.get("fn"):
                 gs = prog.resolve_call(f, e)
-                if gs and not gs[0].qn.startswith(("mpt::", "std::")) and (any_callee or _can_fail(gs[0])):
+                if gs and not gs[0].qn.startswith(("mpt::", "std::")) and (any_callee or _can_fail(gs[0]) or (extra and gs[0].qn in extra)):
                     nm = gs[0].qn
             elif e.get("callee") is not None:
                 ce = strip(e["callee"], all_casts=True)
@@ -752,10 +758,11 @@ def run_mustcheck(prog, ctx=None):
     dropped a check the code used to make.  New functions and calls moved elsewhere are not judged."""
     import json as _json, os as _os
     res = Result("MUSTCHECK")
-    ref = _json.load(open(_os.path.join(_os.path.dirname(_os.path.abspath(__file__)), "mustcheck.json")))["sites"]
+    _tab = _json.load(open(_os.path.join(_os.path.dirname(_os.path.abspath(__file__)), "mustcheck.json")))
+    ref = _tab["sites"]
     now = {}
     where = {}
-    for f, e, nm, ign in call_sites(prog):
+    for f, e, nm, ign in call_sites(prog, extra=set(_tab.get("fallible", []))):
         k = f.file + ":" + f.qn
         ent = now.setdefault(k, {}).setdefault(nm, [0, 0])
         ent[1 if ign else 0] += 1
@@ -934,15 +941,18 @@ def forward_target(prog, f, qn, depth=0):
 
 
 def param_tests(prog, f):
-    """parameter position -> sorted boundaries (as 2*x+1 integers) at which the function compares that integer parameter with
-    a constant (`p < c` cuts below c, `p <= c` above, `p == c` / `p != c` / `!p` on both sides); for unsigned parameters the
-    cut below zero is no cut"""
+    """parameter position (or `position.member` for an integer member reached through a pointer parameter) -> sorted boundaries
+    (as 2*x+1 integers) at which the function compares that value with a constant (`p < c` cuts below c, `p <= c` above,
+    `p == c` / `p != c` / `!p` / `if (p)` on both sides); for unsigned values the cut below zero is no cut"""
     pos = {}
+    ptr = {}
     for j, p in enumerate(f.params):
         T = f.T(p.get("t"))
         if T.get("k") in ("int", "enum", "bool") and "id" in p:
-            pos[p["id"]] = (j, T)
-    if not pos:
+            pos[p["id"]] = (str(j), T)
+        elif T.get("k") == "ptr" and "id" in p:
+            ptr[p["id"]] = j
+    if not pos and not ptr:
         return {}
     out = {}
 
@@ -950,12 +960,31 @@ def param_tests(prog, f):
         x = strip(x, all_casts=True)
         if x.get("k") == "ref" and x["d"].get("id") in pos:
             return pos[x["d"]["id"]]
+        if x.get("k") == "mem" and f.T(x.get("t")).get("k") in ("int", "enum", "bool"):
+            path = []
+            cur = x
+            while isinstance(cur, dict) and cur.get("k") == "mem":
+                path.append(cur["f"])
+                nxt = strip(cur["b"], all_casts=True)
+                if cur.get("arrow"):
+                    if nxt.get("k") == "ref" and nxt["d"].get("id") in ptr:
+                        return ("%d.%s" % (ptr[nxt["d"]["id"]], ".".join(reversed(path))), f.T(x.get("t")))
+                    return None
+                cur = nxt
         return None
+
+    def add(pj, bs):
+        if not pj[1].get("signed", True):
+            bs = {b for b in bs if b > 0}
+        if bs:
+            out.setdefault(pj[0], set()).update(bs)
     trees = []
+    conds = []
     for bid, blk in f.blocks.items():
         trees.extend(blk.el)
         if blk.term and isinstance(blk.term.get("cond"), dict):
             trees.append(blk.term["cond"])
+            conds.append((blk, blk.term["cond"]))
     seen = set()
     for t in trees:
         for n in walk(t):
@@ -978,14 +1007,26 @@ def param_tests(prog, f):
                         bs = {2 * c + 1}
                     else:
                         bs = {2 * c - 1, 2 * c + 1}
-                    if not pj[1].get("signed", True):
-                        bs = {b for b in bs if b > 0}
-                    out.setdefault(pj[0], set()).update(bs)
+                    add(pj, bs)
             elif n.get("k") == "un" and n.get("op") == "!":
                 pj = par(n["e"])
                 if pj is not None:
-                    bs = {-1, 1} if pj[1].get("signed", True) else {1}
-                    out.setdefault(pj[0], set()).update(bs)
+                    add(pj, {-1, 1})
+    # the value itself as the operand a branch decides on: `if (p)`, `a && p->len`
+    for blk, c in conds:
+        c = strip(c, all_casts=True)
+        ops = []
+        if blk.term.get("cls") == "BinaryOperator":
+            if c.get("k") == "bin" and c.get("op") in ("&&", "||"):
+                ops = [c["a"]]
+        else:
+            while c.get("k") == "bin" and c.get("op") in ("&&", "||"):
+                c = strip(c["b"], all_casts=True)
+            ops = [c]
+        for o in ops:
+            pj = par(o)
+            if pj is not None:
+                add(pj, {-1, 1})
     return {str(k): sorted(v) for k, v in out.items() if v}
 
 
@@ -1011,15 +1052,20 @@ def run_paramclass(prog, ctx=None):
         matched += 1
         cur = param_tests(prog, f)
         for j, bs in sorted(ent.items()):
-            if int(j) >= len(f.params) or f.T(f.params[int(j)].get("t")).get("k") not in ("int", "enum", "bool"):
+            jn = int(j.split(".")[0])
+            if jn >= len(f.params):
+                continue
+            want = ("ptr",) if "." in j else ("int", "enum", "bool")
+            if f.T(f.params[jn].get("t")).get("k") not in want:
                 continue
             now = set(cur.get(j, []))
             gone = sorted(set(bs) - now)
             new = sorted(now - set(bs))
             ok = not (gone and new)
-            res.ob("%s:parameter %s (%s)" % (k.split(":", 1)[1], j, f.params[int(j)].get("n", "?")), ok, f, f.line,
-                   "" if ok else "%s compared its parameter %s with constants at the cuts %s in the reference tree and does so at %s now: the cut at %s moved to %s, arguments between them are handled like their neighbours" % (
-                       f.qn, f.params[int(j)].get("n", j), [b / 2 for b in bs], [b / 2 for b in sorted(now)], [b / 2 for b in gone], [b / 2 for b in new]))
+            what = f.params[jn].get("n", "?") + ("->" + j.split(".", 1)[1] if "." in j else "")
+            res.ob("%s:parameter %s (%s)" % (k.split(":", 1)[1], j, what), ok, f, f.line,
+                   "" if ok else "%s compared %s with constants at the cuts %s in the reference tree and does so at %s now: the cut at %s moved to %s, values between them are handled like their neighbours" % (
+                       f.qn, what, [b / 2 for b in bs], [b / 2 for b in sorted(now)], [b / 2 for b in gone], [b / 2 for b in new]))
     if matched < len(ref) * 3 // 4:
         raise Broken("PARAMCLASS: only %d of the %d functions of the reference table still exist" % (matched, len(ref)))
     return res
